@@ -47,7 +47,7 @@ func genPreviewHistory(r *vc.Rand) []histItem {
 				pv = stamp(g.mixedOp(nTx, false))
 			}
 			pv.DryRun = true
-			pv.Tag = pv.Tag + "-preview"
+			pv.Tag = fmt.Sprintf("%s-preview%d", pv.Tag, k) // unique even for repeated previews of one revert
 			if pv.Kind == "script" || pv.Kind == "postings" || pv.Kind == "savemeta" {
 				m := map[string]string{}
 				for a, b := range pv.Meta {
@@ -250,4 +250,125 @@ func countPreviewsBefore(recs []*Record, seq int) int {
 		}
 	}
 	return n
+}
+
+// ------------------------------------------------------------------------------------------------ concurrent previews
+// Previews are injected into the concurrent workloads of the other engine properties (contested references, idempotency
+// keys, hot accounts, mixed writes). The standard oracles run on the result; a violation that appears with the previews
+// while the same scenario without them is clean under the same schedule seeds is a preview that changed later behaviour.
+
+func injectPreviews(sc *Scenario, r *vc.Rand) (*Scenario, int) {
+	out := &Scenario{Kind: sc.Kind + "+previews"}
+	n := 0
+	for pi, ph := range sc.Phases {
+		np := ph
+		np.Clients = nil
+		var pool []Op
+		for _, c := range ph.Clients {
+			pool = append(pool, c.Ops...)
+		}
+		for _, c := range ph.Clients {
+			nc := ClientPlan{Name: c.Name}
+			for _, op := range c.Ops {
+				if pi > 0 && len(pool) > 0 && r.Chance(1, 2) {
+					pv := pool[r.Intn(len(pool))]
+					n++
+					pv.DryRun = true
+					pv.IK = ""
+					pv.CancelAt = 0
+					pv.Tag = fmt.Sprintf("%s-preview%d", pv.Tag, n)
+					if pv.Meta != nil {
+						m := map[string]string{}
+						for a, b := range pv.Meta {
+							m[a] = b
+						}
+						m["req"] = pv.Tag
+						pv.Meta = m
+					}
+					if pv.Kind == "delmeta" {
+						pv.Key = pv.Tag
+					}
+					nc.Ops = append(nc.Ops, pv)
+				}
+				nc.Ops = append(nc.Ops, op)
+			}
+			np.Clients = append(np.Clients, nc)
+		}
+		out.Phases = append(out.Phases, np)
+	}
+	return out, n
+}
+
+func allOracles(o *Observed) []Finding {
+	var fs []Finding
+	for i, l := range o.Logs {
+		if t := logTag(l); len(t) > 8 && containsPreview(t) {
+			fs = append(fs, Finding{"dry-run-left-a-log:" + l.Type.String(), fmt.Sprintf("log %d carries the tag of a preview (%s)", i, t)})
+		}
+	}
+	fs = append(fs, checkChain(o)...)
+	fs = append(fs, checkReferences(o)...)
+	fs = append(fs, checkIdempotency(o)...)
+	fs = append(fs, checkNoDoubleSpend(o)...)
+	fs = append(fs, checkAckPersist(o)...)
+	fs = append(fs, checkEvents(o)...)
+	return fs
+}
+
+func containsPreview(t string) bool {
+	for i := 0; i+8 <= len(t); i++ {
+		if t[i:i+8] == "-preview" {
+			return true
+		}
+	}
+	return false
+}
+
+func runC14Concurrent(cfg *vc.Config, rep *vc.Report) {
+	gens := []func(*vc.Rand) *Scenario{genReferences, genIdempotency, genContention, genWrites, genReverts}
+	nSched := 4
+	if cfg.Tier == "thorough" {
+		nSched = 8
+	}
+	cfg.Cases(240, 6000, func(i int, r *vc.Rand) {
+		base := gens[i%len(gens)](r.Fork())
+		with, n := injectPreviews(base, r.Fork())
+		if n == 0 {
+			return
+		}
+		rep.Current(map[string]any{"index": i, "scenario": planJSON(with)})
+		for k := 0; k < nSched; k++ {
+			seed := r.Uint64()
+			a := runControlled(with, seed)
+			rep.Eval()
+			rep.Inc("schedules")
+			rep.Add("previews", int64(n))
+			rep.Inc("workload_" + base.Kind)
+			if a.Stalled != "" {
+				rep.Inconc("stalled: " + a.Stalled)
+				return
+			}
+			for _, s := range a.Scheds {
+				rep.DistinctCase(s.Signature() ^ uint64(i))
+			}
+			fa := allOracles(a.Obs)
+			if len(fa) == 0 {
+				continue
+			}
+			// does the same scenario without the previews misbehave too (then it is not the previews' doing)?
+			clean := true
+			for j := 0; j < 6 && clean; j++ {
+				b := runControlled(base, seed+uint64(j))
+				if len(allOracles(b.Obs)) > 0 {
+					clean = false
+				}
+			}
+			rep.Inc("twin_comparisons")
+			if clean {
+				rep.Violate("preview-changes-later-behaviour:"+fa[0].Rule, fa[0].What, i, map[string]any{"index": i, "schedule": k, "scenario": planJSON(with), "history": a.Obs.Recs, "log_ids": logIDs(a.Obs)})
+			} else {
+				rep.Inc("violations_also_without_previews")
+			}
+		}
+	})
 }
